@@ -247,6 +247,15 @@ func registerVrt(p *Program) {
 		return nil
 	}
 	intr["vrtVisible"] = func(fr *frame, a []value) value { return nil }
+	intr["vrtStepLimit"] = func(fr *frame, a []value) value {
+		n := int(asInt64(a[0]))
+		if n <= 0 {
+			fr.m.stepLimit = 0
+		} else {
+			fr.m.stepLimit = fr.m.steps + n
+		}
+		return nil
+	}
 	intr["vrtRaceOff"] = func(fr *frame, a []value) value { fr.m.racePaused = true; return nil }
 	intr["vrtRaceOn"] = func(fr *frame, a []value) value { fr.m.racePaused = false; return nil }
 	intr["vrtSharedChan"] = func(fr *frame, a []value) value {
